@@ -168,7 +168,10 @@ def check_family(ctx, report, rule, facts, config, families, only=None):
             label, src, names, expect = chk[:4]
             inline = chk[4] if len(chk) > 4 else ()
             fam = _family_pred(names, body)
-            cov = coverage(prog, body, src, fam, inline=inline)
+            # a sibling method called on the object as a whole (`run_now` -> `self.dispatch(..)`) is looked into, unless it
+            # is the very call the entry asks for
+            keep = (set(names) if (src.base == SELF and not src.path) else set()) if not callable(names) else None
+            cov = coverage(prog, body, src, fam, inline=inline, keep=keep)
             inst = "%s/%s/%s" % (family, ident, label)
             ok = cov.status == expect
             site = cov.sites[0] if cov.sites else body.loc()
@@ -180,7 +183,7 @@ def check_family(ctx, report, rule, facts, config, families, only=None):
                 for other, onames in sorted(LIFECYCLE.items()):
                     if other == family:
                         continue
-                    oc = coverage(prog, body, src, _family_pred(onames - names, body), inline=inline, vacuous=False)
+                    oc = coverage(prog, body, src, _family_pred(onames - names, body), inline=inline, vacuous=False, keep=keep)
                     if oc.status != "never":
                         report.ob(rule, inst + "/no-" + other, False,
                                   "a %s-family method is invoked on %s inside a %s-family method: %s" % (other, label, family, oc.detail),
